@@ -67,6 +67,7 @@ fn main() {
     "c03" => cases.iter().map(c03::run_case).collect(),
     "eng" => cases.iter().map(eng::run_case).collect(),
     "opt" => opt::run_all(cases),
+    "optslot" => cases.iter().map(opt::run_slot).collect(),
     "pair" => cases.iter().map(pair::run_case).collect(),
     "c12" => cases.iter().map(c12::run_case).collect(),
     "c10" => c10::run_all(cases, &args[3]),
